@@ -224,6 +224,37 @@ def probe_unchanged(f):
     return False, {'variants': len(variants)}
 
 
+def verdict_depends_on_seed_or_mode(f):
+    """C10: the accept/reject verdict of one proof differs between statements with / without / with another seed, or between verifying modes"""
+    outs = _runs(f, (1, 2))
+    bad = []
+    for o in outs:
+        if 'crash' in o:
+            return None, o
+        vs = set()
+        for per in o.get('verify_each') or []:
+            for v in per:
+                if v['action'] != 'RecoverOnly':
+                    vs.add('ok' if v['result'] == 'ok' else 'refused')
+        if len(vs) > 1:
+            bad.append([[ (v['action'], v['result']) for v in per] for per in o['verify_each']])
+    return (len(bad) == len(outs)), bad[:1]
+
+
+def wrong_seed_recovers(f):
+    """C10: recovery with a different seed returns the true mask"""
+    outs = _runs(f, (1, 2))
+    bad = []
+    for o in outs:
+        if 'crash' in o:
+            return None, o
+        per = (o.get('verify_each') or [None, None])[1]
+        for v in per or []:
+            if v['action'] != 'VerifyOnly' and v['result'] == 'ok' and v['masks'][0] == o['members'][0]['blindings'][0]:
+                bad.append({'action': v['action'], 'mask': v['masks'][0]})
+    return (len(bad) == len(outs)), bad[:1]
+
+
 def relation_disagrees(f):
     """C02: the library's verdict differs from the independent unoptimised evaluation of the relation
     (replay crate, refimpl.rs) on an honest proof or on a perturbed proof of the same configuration"""
